@@ -37,8 +37,21 @@ def rich_state(P, A):
     c1 = A.get('c1', 'meta')
     timed = P.get('timing', True)
 
-    def tb(d):
-        return B.timing_block(dur=d) if timed else None
+    def tb(d, i=None):
+        # P['timing_pat'][i]: which timing tags story i carries (default: a StoryDuration)
+        pat = P.get('timing_pat')
+        kind = pat[i] if pat and i is not None and i < len(pat) else 'SD'
+        if not timed or kind == 'none':
+            return None
+        if kind == 'TT':
+            return B.timing_block(text_time=d)
+        if kind == 'MT':
+            return B.timing_block(media_time=d)
+        if kind == 'TT+MT':
+            return B.timing_block(text_time=d, media_time='3')
+        if kind == 'empty':
+            return B.timing_block()
+        return B.timing_block(dur=d)
     meta = E('mosExternalMetadata', T('mosScope', 'PLAYLIST'), T('mosSchema', 'sch.ro'),
              E('mosPayload', T('Owner', c1), E('nested', T('leaf', 'x'), k=c1)))
     untimed = P.get('untimed', ())
@@ -52,7 +65,7 @@ def rich_state(P, A):
         for i, sid in enumerate(ids):
             if P.get('blank_mid') == i:
                 stories.append(B.story(None, slug='blank', timing=tb('5'), body=[T('p', c0)]))
-            stories.append(B.story(sid, slug='ss', timing=None if i in untimed else tb('10'),
+            stories.append(B.story(sid, slug='ss', timing=None if i in untimed else tb('10', i),
                                    body=[T('p', c0), B.item('I1', slug='one', obj_id='o1', extra=B.decoys(dec_story, dec_item)),
                                          T('p', None)]))
         root = B.ro_tree(stories, lead=3, gap=P.get('gap', 0), trail=P.get('trail', 1), edstart=None)
@@ -72,9 +85,9 @@ def rich_state(P, A):
             body.append(T('p', c0))
     if P.get('tail', True):
         body.append(T('p', '(tail)'))
-    addressed = B.story(addr_id, slug='ss', timing=None if 0 in untimed else tb('10'), body=body)
+    addressed = B.story(addr_id, slug='ss', timing=None if 0 in untimed else tb('10', 0), body=body)
     extra = [B.item(A['e0'], slug='only-here', obj_id=c0)] if 'e0' in A else []
-    other = B.story(other_id, slug='so', timing=None if 1 in untimed else tb('20'),
+    other = B.story(other_id, slug='so', timing=None if 1 in untimed else tb('20', 1),
                     body=[B.item(i, slug='other', obj_id=c0) for i in reversed(ids)] + extra + [T('p', c0)])
     order = [addressed, other] if P.get('w', 0) == 0 else [other, addressed]
     root = B.ro_tree(order, lead=3, trail=1)
